@@ -259,8 +259,9 @@ def run(program, rep, tier):
     # each listener exactly once: registration is idempotent (C03.idempotent)
     from rules import evrules
     rep.borrow(evrules.delivery_sites, program, rep, 'C03',
-               {'deliver', 'snapshot'},
-               keep=lambda o: o.rule in ('C03.deliver', 'C03.snapshot'),
+               {'deliver', 'snapshot', 'deref'},
+               keep=lambda o: o.rule in ('C03.deliver', 'C03.snapshot',
+                                         'C03.deref'),
                rename=lambda r: 'C20.once',
                why='not every listener of the transform is notified')
     from rules import c04
